@@ -132,6 +132,9 @@ fn gen_poly_txt(rng: &mut Rng, k: i64) -> String {
 /// grid are multiples of 1/2 and are computed exactly, so attainable values are included on purpose.
 fn gen_eps(rng: &mut Rng, k: i64, area: bool) -> f64 {
     let big = if rng.chance(1, 8) { 1 << 20 } else { k };
+    if rng.chance(1, 40) {
+        return f64::INFINITY; // a legal tolerance: everything removable is removed
+    }
     match rng.below(16) {
         0 => 0.0,
         1 => -(rng.range(0, 3) as f64) - 0.5,
